@@ -75,10 +75,15 @@ def run_prop(prop: str, what: str, tier: str, seed: int, log, opts=None, key_of=
         else:
             fo.detail = f'replay broke: {f["what"]} | {rp["detail"]}'
         extra.append(fo)
+    known_keys = _known_keys(prop)
     for ob in obs:
         if ob.verdict == 'pending':
             mine = [fo for fo in extra if fo.name.startswith(ob.name + ' :: ')]
-            if any(fo.verdict == 'refuted' for fo in mine):
+            if mine and all(fo.verdict == 'refuted' and fo.call in known_keys for fo in mine):
+                ob.verdict = 'confirmed'        # everything else in this program held
+                ob.detail = 'all scenarios hold except the listed known finding(s): ' + \
+                            ', '.join(sorted({fo.call for fo in mine}))
+            elif any(fo.verdict == 'refuted' for fo in mine):
                 ob.verdict = 'finding'          # details are carried by the finding obligations
                 ob.claim = False
             else:
@@ -101,6 +106,22 @@ def run_prop(prop: str, what: str, tier: str, seed: int, log, opts=None, key_of=
         f'{sum(1 for r in results if r["status"] == "ok")} decided, {len(replay_jobs)} findings replayed, '
         f'{len(agree)}/{len(vals)} machine-vs-g++ validations agree, {time.time() - t0:.0f}s')
     return obs + extra
+
+
+def _known_keys(prop: str):
+    import json
+    import os
+    path = os.path.join(os.path.dirname(os.path.dirname(os.path.abspath(__file__))), 'known_findings.jsonl')
+    keys = set()
+    if os.path.exists(path):
+        with open(path, encoding='utf-8') as fh:
+            for line in fh:
+                line = line.strip()
+                if line and not line.startswith('#'):
+                    rec = json.loads(line)
+                    if rec.get('property') == prop and rec.get('status') == 'known':
+                        keys.add(rec['key'])
+    return keys
 
 
 def write_replay(prop: str, what: str, label: str, finding: Dict, key: str) -> str:
